@@ -74,13 +74,13 @@ type Profile struct {
 }
 
 var (
-	ProfGeneral = Profile{Name: "general", NDeps: 5, NIfaces: 10, SameNames: 0.3, Aliases: 0.25, Collide: 0.3, Generic: 0.25, MaxDepth: 3}
-	ProfImports = Profile{Name: "imports", NDeps: 9, NIfaces: 10, SameNames: 0.7, Aliases: 0.4, Collide: 0.4, Generic: 0.1, MaxDepth: 2}
-	ProfNaming  = Profile{Name: "naming", NDeps: 4, NIfaces: 12, SameNames: 0.4, Aliases: 0.3, Collide: 0.9, Generic: 0.1, MaxDepth: 2}
-	ProfGeneric = Profile{Name: "generic", NDeps: 4, NIfaces: 10, SameNames: 0.3, Aliases: 0.2, Collide: 0.3, Generic: 0.9, MaxDepth: 2}
+	ProfGeneral = Profile{Name: "general", NDeps: 5, NIfaces: 8, SameNames: 0.3, Aliases: 0.25, Collide: 0.3, Generic: 0.25, MaxDepth: 3}
+	ProfImports = Profile{Name: "imports", NDeps: 9, NIfaces: 8, SameNames: 0.7, Aliases: 0.4, Collide: 0.4, Generic: 0.1, MaxDepth: 2}
+	ProfNaming  = Profile{Name: "naming", NDeps: 4, NIfaces: 10, SameNames: 0.4, Aliases: 0.3, Collide: 0.9, Generic: 0.1, MaxDepth: 2}
+	ProfGeneric = Profile{Name: "generic", NDeps: 4, NIfaces: 8, SameNames: 0.3, Aliases: 0.2, Collide: 0.3, Generic: 0.9, MaxDepth: 2}
 	ProfRegen   = Profile{Name: "regen", NDeps: 8, NIfaces: 10, SameNames: 0.6, Aliases: 0.35, Collide: 0.4, Generic: 0.15, MaxDepth: 2, Regen: true}
 	ProfCluster = Profile{Name: "cluster", NDeps: 3, NIfaces: 6, SameNames: 0.2, Aliases: 0.2, Collide: 0.3, Generic: 0.1, MaxDepth: 2, Cluster: true}
-	ProfRuntime = Profile{Name: "runtime", NDeps: 4, NIfaces: 10, SameNames: 0.3, Aliases: 0.2, Collide: 0.3, Generic: 0.25, MaxDepth: 2, Runtime: true}
+	ProfRuntime = Profile{Name: "runtime", NDeps: 4, NIfaces: 7, SameNames: 0.3, Aliases: 0.2, Collide: 0.3, Generic: 0.25, MaxDepth: 2, Runtime: true}
 )
 
 // Profiles in the order used by corpus builders.
@@ -207,6 +207,10 @@ var stdDeps = []*Dep{
 	{Path: "sync", Name: "sync", Std: true, Ifaces: []string{"Locker"}},
 	{Path: "cmp", Name: "cmp", Std: true, Constr: "Ordered"},
 	{Path: "database/sql/driver", Name: "driver", Std: true, Ifaces: []string{"Value", "Valuer"}},
+	{Path: "sort", Name: "sort", Std: true, Ifaces: []string{"Interface"}},
+	{Path: "container/heap", Name: "heap", Std: true, Ifaces: []string{"Interface"}},
+	{Path: "flag", Name: "flag", Std: true, Ifaces: []string{"Value"}},
+	{Path: "encoding", Name: "encoding", Std: true, Ifaces: []string{"BinaryMarshaler", "TextUnmarshaler"}},
 }
 
 var unsafeDep = &Dep{Path: "unsafe", Name: "unsafe", Std: true, Extra: []string{"Pointer"}}
